@@ -1,10 +1,16 @@
 import JunoModel.Common.Proto
 import JunoModel.C14.Model
 import JunoModel.C14.Codec
+import JunoModel.C14.Batch
 /-! Line-protocol driver for the C14 model (`lake build c14drv`).
 
 Requests (numbers are decimal):
   `decode <hex>` (record payload bytes -> what `decodeWALRecord` yields, `err` when it rejects)
+  `encbatch <seq> | <record> | <record> …` the bytes `encodeBatch` produces (records in the form `decode` prints)
+  `batch <hex>`                    `applyEncodedBatch` on the bytes: `ok <seq> <count> | <record> …`, `err:<class>`, `panic`
+  `readlog <wm> <num>:<hex>,<hex>,… …`  NewTendermintWALStore over logs given by their complete records
+  `wmenc <h>` / `wmdec <hex>`      the watermark file
+  `pending` / `nextseq`            the buffered records (`e:<h>:<e>` / `p:<h>`) and `nextBatchSeqNum` of the running store
   `set h e` | `del h` | `flush <fault>` | `close <fault>` | `open` | `load` | `disk`
   `bases <cop> <fault>`            every durable state of the operation: `<tag>|<disk>|<infl>` joined by ` ; `
   `img <cop> <fault> <i> <mask>`   the crash image and what a restart sees: `<disk> => <recover>`
@@ -102,6 +108,56 @@ def fmtPayload : Option Codec.Payload → String
   | some (.timeout st h r) => "timeout " ++ toString st ++ " " ++ toString h ++ " " ++ toString r
   | some (.prune h) => "prune " ++ toString h
 
+def fmtPay (p : Codec.Payload) : String := fmtPayload (some p)
+
+def parseLimbs (s : String) : Option Codec.Limbs :=
+  match (s.splitOn ",").map String.toNat? with
+  | [some a, some b, some c, some d] => some ⟨a, b, c, d⟩
+  | _ => none
+
+def parseOptLimbs (s : String) : Option (Option Codec.Limbs) :=
+  if s == "-" then some none else (parseLimbs s).map some
+
+/-- the inverse of `fmtPayload` (the harness renders a real entry in that form) -/
+def parsePayload : List String → Option Codec.Payload
+  | ["start", h] => h.toNat?.map .start
+  | ["prune", h] => h.toNat?.map .prune
+  | ["timeout", st, h, r] => do pure (.timeout (← st.toNat?) (← h.toNat?) (← r.toNat?))
+  | ["proposal", h, r, s, vr, v] => do
+    pure (.proposal ⟨← h.toNat?, ← r.toNat?, ← parseLimbs s⟩ (← vr.toNat?) (← parseOptLimbs v))
+  | ["prevote", h, r, s, id] => do pure (.prevote ⟨← h.toNat?, ← r.toNat?, ← parseLimbs s⟩ (← parseOptLimbs id))
+  | ["precommit", h, r, s, id] => do pure (.precommit ⟨← h.toNat?, ← r.toNat?, ← parseLimbs s⟩ (← parseOptLimbs id))
+  | _ => none
+
+/-- `a b | c d | e` → `[[a,b],[c,d],[e]]` (a leading `|` is allowed) -/
+def splitBar (ws : List String) : List (List String) :=
+  (ws.foldr (fun w acc => match acc with
+    | [] => if w == "|" then [[]] else [[w]]
+    | g :: gs => if w == "|" then [] :: g :: gs else (w :: g) :: gs) []).filter (fun g => !g.isEmpty)
+
+def allSome {α : Type} : List (Option α) → Option (List α)
+  | [] => some []
+  | none :: _ => none
+  | some a :: r => (allSome r).map (a :: ·)
+
+def fmtRecErr : Batch.RecErr → String
+  | .corruptHeader => "err:corrupt-header"
+  | .missingHeader => "err:missing-header"
+  | .iter => "err:iter"
+  | .count => "err:count"
+  | .kind => "err:kind"
+  | .decode => "err:decode"
+  | .panic => "panic"
+
+/-- `<num>:<hex>,<hex>,…` (no record: `<num>:`) -/
+def parseLog (t : String) : Option (Nat × List (List UInt8)) :=
+  match t.splitOn ":" with
+  | [n, rs] => do
+    let n ← n.toNat?
+    let recs ← if rs.isEmpty then some [] else allSome ((rs.splitOn ",").map hexToBytes?)
+    pure (n, recs)
+  | _ => none
+
 def run1 (s : Sys) (op : Op) : Sys × String :=
   let (s', o) := s.step op
   (s', fmtOut o)
@@ -129,10 +185,44 @@ def step (s : Sys) (line : String) : Sys × String :=
     match hexToBytes? hx with
     | some bs => (s, fmtPayload (Codec.decode bs))
     | none => (s, "bad-op")
+  | "encbatch" :: seq :: rest =>
+    match seq.toNat?, allSome ((splitBar rest).map parsePayload) with
+    | some q, some ps => (s, bytesToHex (Batch.encodeBatch q (ps.map Codec.encode)))
+    | _, _ => (s, "bad-op")
+  | ["batch", hx] =>
+    match hexToBytes? hx with
+    | some bs =>
+      match Batch.applyBatch bs with
+      | .error e => (s, fmtRecErr e)
+      | .ok (q, c, ps) => (s, "ok " ++ toString q ++ " " ++ toString c ++ String.join (ps.map (fun p => " | " ++ fmtPay p)))
+    | none => (s, "bad-op")
+  | "readlog" :: wm :: logs =>
+    match wm.toNat?, allSome (logs.map parseLog) with
+    | some wm, some logs =>
+      match Batch.openLogs wm logs with
+      | .error e => (s, fmtRecErr e)
+      | .ok r => (s, "ok nextseq=" ++ toString r.nextSeq ++ String.join (r.load.map (fun p => " | " ++ fmtPay p)))
+    | _, _ => (s, "bad-op")
+  | ["wmenc", h] =>
+    match h.toNat? with
+    | some h => (s, bytesToHex (Batch.wmEncode h))
+    | none => (s, "bad-op")
+  | ["wmdec", hx] =>
+    match hexToBytes? hx with
+    | some bs =>
+      match Batch.wmDecode bs with
+      | .ok h => (s, "ok " ++ toString h)
+      | .error .size => (s, "err:size")
+      | .error .header => (s, "err:header")
+    | none => (s, "bad-op")
   | ["poke", i, e] =>
     match i.toNat?, e.toNat? with
     | some i, some e => if s.alive then ({ s with st := s.st.poke i e }, "ok") else (s, "dead")
     | _, _ => (s, "bad-op")
+  | ["pending"] =>
+    (s, if s.alive then fmtList (s.st.pending.map (fun r => match r with
+      | .entry h e => "e:" ++ toString h ++ ":" ++ toString e
+      | .prune h => "p:" ++ toString h)) "," else "dead")
   | ["nextseq"] => (s, if s.alive then toString s.st.nextSeq else "dead")
   | ["limbo"] => (s, toString s.limbo.length)
   | ["load"] => if s.alive then (s, fmtLoad s.st.load) else (s, "dead")
